@@ -19,6 +19,7 @@ import (
 	"path/filepath"
 	"sort"
 	"strings"
+	"sync"
 	"sync/atomic"
 	"time"
 
@@ -378,6 +379,16 @@ func famFault(tr *Trace, scratch string, seed int64, tier string, workers int, r
 			{"arch_name_hyphen", func(c *Cfg, y string) string { return strings.Replace(y, "name: \"invpkg\"", "name: \"-invpkg\"", 1) }},
 			{"arch_name_dot", func(c *Cfg, y string) string { return strings.Replace(y, "name: \"invpkg\"", "name: \".inv.pkg\"", 1) }},
 			{"arch_name_dashes", func(c *Cfg, y string) string { return strings.Replace(y, "name: \"invpkg\"", "name: \"--\"", 1) }},
+			// a relation with an operator rpm does not know, in each relation list (the other formats pass relations through)
+			{"rpm_relation_depends", func(c *Cfg, y string) string {
+				c.Depends = []string{"good >= 1", "libfoo == 1.2.3"}
+				return c.YAML(root)
+			}},
+			{"rpm_relation_provides", func(c *Cfg, y string) string { c.Provides = []string{"virt >> 2"}; return c.YAML(root) }},
+			{"rpm_relation_recommends", func(c *Cfg, y string) string { c.Recommends = []string{"rec << 1", "fine"}; return c.YAML(root) }},
+			{"rpm_relation_replaces", func(c *Cfg, y string) string { c.Replaces = []string{"old == 1"}; return c.YAML(root) }},
+			{"rpm_relation_suggests", func(c *Cfg, y string) string { c.Suggests = []string{"sug =< 2"}; return c.YAML(root) }},
+			{"rpm_relation_conflicts", func(c *Cfg, y string) string { c.Conflicts = []string{"bad => 1"}; return c.YAML(root) }},
 			{"missing_name", func(c *Cfg, y string) string { return strings.Replace(y, "name: \"invpkg\"\n", "", 1) }},
 			{"wrong_passphrase", func(c *Cfg, y string) string { return y }},
 		}
@@ -477,6 +488,7 @@ func famCli(tr *Trace, id *int, scratch, bin, behaviours string) int {
 	c.Ov = map[string]*OvCfg{}
 	for _, f := range allFormats {
 		c.Ov[f] = &OvCfg{Depends: []string{"dep-for-" + f}, Umask: 0o27}
+		nodes = append(nodes, ovScripts(c, f, []string{"preremove"})...) // ... and a script that only this format's block sets
 	}
 	exts := map[string]string{"deb": ".deb", "rpm": ".rpm", "apk": ".apk", "archlinux": ".pkg.tar.zst", "ipk": ".ipk"}
 	run := func(f, targetKind, fault string, withP bool, tlc *cliBehaviour) {
@@ -658,6 +670,55 @@ func famCli(tr *Trace, id *int, scratch, bin, behaviours string) int {
 				"conventional_name": refName, "tlc": tl, "obs_exit": exitClass, "obs_where": obsWhere, "obs_fs": obsFs},
 			{"ev": "endcase"}})
 		os.RemoveAll(work)
+	}
+	// several runs of the tool at the same time into ONE directory, target names that differ only in their extension (what a
+	// release script does): each run delivers its own package, nothing else is left behind
+	conc := func(round int) {
+		work := filepath.Join(scratch, fmt.Sprintf("cli-conc-%d", round))
+		outDir := filepath.Join(work, "dist")
+		must(os.MkdirAll(outDir, 0o755))
+		os.RemoveAll(root)
+		Materialise(root, nodes)
+		y := c.YAML(root)
+		cfgPath := filepath.Join(work, "nfpm.yaml")
+		must(os.WriteFile(cfgPath, []byte(y), 0o644))
+		type res struct {
+			exit int
+			out  string
+		}
+		rs := make([]res, len(allFormats))
+		var wg sync.WaitGroup
+		for i, f := range allFormats {
+			wg.Add(1)
+			go func(i int, f string) {
+				defer wg.Done()
+				cmd := exec.Command(bin, "package", "-f", cfgPath, "-p", f, "-t", filepath.Join(outDir, "demo"+exts[f]))
+				cmd.Dir = work
+				cmd.Env = append(os.Environ(), "TZ=UTC")
+				o, err := cmd.CombinedOutput()
+				if err != nil {
+					rs[i].exit = 1
+				}
+				rs[i].out = string(o)
+			}(i, f)
+		}
+		wg.Wait()
+		left := listFiles(outDir)
+		for i, f := range allFormats {
+			var ref bytes.Buffer
+			refErr := packageWith(y, f, &ref)
+			b, rerr := os.ReadFile(filepath.Join(outDir, "demo"+exts[f]))
+			*id++
+			n++
+			tr.Emit(*id, []M{{"ev": "case", "id": *id, "fam": "cli_conc"},
+				{"ev": "cli_conc", "fmt": f, "round": round, "exit": rs[i].exit, "bytes_equal_library_build": refErr == nil && rerr == nil && bytes.Equal(b, ref.Bytes()),
+					"files_left": len(left), "expected_files": len(allFormats), "output": safeStr(firstN(strings.ReplaceAll(rs[i].out, work, "$WORK"), 300))},
+				{"ev": "endcase"}})
+		}
+		os.RemoveAll(work)
+	}
+	for round := 0; round < 3; round++ {
+		conc(round)
 	}
 	if behaviours != "" {
 		// spec -> code: every terminal behaviour TLC exported is replayed on the real binary
